@@ -1856,6 +1856,7 @@ def check_C11(ctx):
 
 def check_C17(ctx):
     rng = ctx.gen.rng
+    session_corr(ctx, 12 if ctx.quick else 200)
     roots = search_roots(ctx, 40 if ctx.quick else 600, nonterminal=False)
     for base, moves, fen, info in roots:
         classify(ctx, fen, *info)
@@ -1903,6 +1904,7 @@ def strip_time(lines):
 
 def check_C18(ctx):
     rng = ctx.gen.rng
+    session_corr(ctx, 12 if ctx.quick else 200)
     tt_clear_cycles(ctx, 2097152)
     roots = search_roots(ctx, 30 if ctx.quick else 400)
     # in-process: the same search from the same state twice; the model is a function of (position, history, table)
@@ -2204,8 +2206,99 @@ def c13_session(ctx, rng, positions):
     return script, None
 
 
+GO_WAIT_RE = re.compile(r'^go( +(depth +[1-9]\d?|movetime +0))+ *$', re.I)
+
+
+def go_searches(line, model):
+    """does this `go` line reach `search` (so that a `bestmove` will come)? decided by the model of `parse_go`"""
+    if line.split(' ')[0].lower() != 'go': return False
+    if model is None: return bool(GO_WAIT_RE.match(line.strip()))
+    b = model.ask('budget w ; ' + line[2:].strip())
+    return bool(b) and re.fullmatch(r'-?\d+ -?\d+', b[-1]) is not None
+
+
+def bb_session(lines, timeout=30, model=None):
+    """the unguarded binary on a script of lines, one at a time: after a `go` that searches, wait for its `bestmove`
+    before the next line is sent (so nothing arrives while a search runs); returns stdout lines, return code"""
+    p = subprocess.Popen([PLAIN_BIN], stdin=subprocess.PIPE, stdout=subprocess.PIPE, stderr=subprocess.DEVNULL, text=True, bufsize=1, env=env_offline())
+    out = []
+    def kill():
+        try: p.kill()
+        except Exception: pass
+    timer = threading.Timer(timeout, kill); timer.start()
+    try:
+        for l in lines:
+            try:
+                p.stdin.write(l + '\n'); p.stdin.flush()
+            except Exception:
+                break
+            if go_searches(l, model):
+                while True:
+                    o = p.stdout.readline()
+                    if not o: break
+                    out.append(o.rstrip('\n'))
+                    if o.startswith('bestmove'): break
+        try: p.stdin.close()
+        except Exception: pass
+        for o in p.stdout:
+            out.append(o.rstrip('\n'))
+        rc = p.wait()
+    finally:
+        timer.cancel()
+    return out, rc
+
+
+def session_script(ctx, rng, games):
+    """a command-loop script over the modelled commands; every `go` is one that terminates by itself"""
+    def pos():
+        base, moves, fens = rng.choice(games)
+        k = rng.randrange(0, len(moves) + 1)
+        if base == START_FEN and rng.random() < 0.7:
+            return 'position startpos' + (' moves ' + ' '.join(moves[:k]) if k else '')
+        return 'position fen ' + base + (' moves ' + ' '.join(moves[:k]) if k else '')
+    legal = [lambda: 'isready', lambda: 'uci', lambda: 'd', lambda: 'eval', lambda: 'ucinewgame', lambda: 'cleartt', pos, pos,
+             lambda: f'go depth {rng.choice([1, 2, 2, 3, 3, 4])}', lambda: f'go depth {rng.choice([1, 2, 3])}', lambda: 'go movetime 0',
+             lambda: f'go movetime 0 depth {rng.choice([2, 3])}', lambda: f'Go  depth {rng.choice([1, 2])}', lambda: 'IsReady', lambda: 'ISREADY extra words',
+             lambda: 'position', lambda: 'hello', lambda: '', lambda: 'UCI', lambda: 'go depth', lambda: 'go depth x', lambda: 'go foo depth 2']
+    # commands no GUI may send (they end the process in the engine and in the model alike): compared, not judged
+    malformed = [lambda: 'go depth 2 wtime', lambda: 'position fen', lambda: 'position startpos moves e2e5', lambda: 'position xyz abc']
+    n = rng.choice([3, 6, 10, 16])
+    use_bad = rng.random() < 0.25
+    lines = [rng.choice(legal + (malformed if use_bad else []))() for _ in range(n)]
+    return lines + ['quit'], not use_bad
+
+
+def session_corr(ctx, n):
+    """the command loop: the unguarded binary (black box, one line at a time) against `Model/Uci` (`session` request)"""
+    rng = random.Random(ctx.seed * 7919 + 13)
+    games = ctx.gen.games(40, maxlen=30)
+    for i in range(n):
+        lines, legal_script = session_script(ctx, rng, games)
+        out, rc = bb_session(lines, model=ctx.model)
+        got = [re.sub(r' time \d+', ' time 0', l) for l in out]
+        m = ctx.model.ask('session ' + ' | '.join(lines))
+        ctx.count('command-loop-sessions'); ctx.count('command-loop-lines', len(lines)); ctx.evaluations += 1
+        ctx.corr_cmds['session'] = ctx.corr_cmds.get('session', 0) + 1
+        status = m[-1] if m else ''
+        want = m[:-1]
+        if 'unmodelled=1' in status:
+            ctx.count('command-loop-unmodelled'); continue
+        died = 'panicked=1' in status
+        ctx.count('command-loop-panics' if died else 'command-loop-clean-exits')
+        if got != want or (died and rc == 0) or (not died and rc != 0):
+            first = next((k for k, (a, b) in enumerate(itertools.zip_longest(got, want)) if a != b), None)
+            ctx.disagreements.append({'command': 'session ' + ' | '.join(lines), 'first_diff_line': first,
+                                      'engine': got[first] if first is not None and first < len(got) else f'rc={rc}',
+                                      'model': want[first] if first is not None and first < len(want) else status})
+            # the property itself: every isready answered, every searching go answered once, quit ends the process
+            n_ready = sum(1 for l in lines if l.split(' ')[0].lower() == 'isready')
+            if legal_script and (sum(1 for l in got if l == 'readyok') != n_ready or rc != 0 or sum(1 for l in got if l.startswith('bestmove')) != sum(1 for l in lines if go_searches(l, ctx.model))):
+                ctx.oracle_fail('command-not-answered', {'script': lines}, {'readyok': sum(1 for l in got if l == 'readyok'), 'isready_sent': n_ready, 'rc': rc})
+
+
 def check_C13(ctx):
     rng = ctx.gen.rng
+    session_corr(ctx, 40 if ctx.quick else 600)
     # deterministic schedules through the driver: lines placed in the channel at chosen polls, engine vs model, and the contract on the result
     roots = search_roots(ctx, 25 if ctx.quick else 300)
     lines_pool = ['isready', 'stop', 'quit', 'ucinewgame', 'position_startpos', 'go_depth_2', 'IsReady', 'isready_', 'd', 'uci', 'perft_2']
